@@ -43,8 +43,11 @@ func ExecutableDataToPayload(data *engine.ExecutableData, beaconRoot []byte, exe
 }
 
 func PayloadToExecutableData(data *ExecutionPayload) *engine.ExecutableData {
-	if data.Transactions == nil {
-		data.Transactions = [][]byte{}
+	// the payload is shared with the goroutine that checks the system
+	// transactions: never write to it, use a local for the empty list
+	transactions := data.Transactions
+	if transactions == nil {
+		transactions = [][]byte{}
 	}
 
 	res := &engine.ExecutableData{
@@ -61,7 +64,7 @@ func PayloadToExecutableData(data *ExecutionPayload) *engine.ExecutableData {
 		ExtraData:     data.ExtraData,
 		BaseFeePerGas: data.BaseFeePerGas.BigInt(),
 		BlockHash:     common.BytesToHash(data.BlockHash),
-		Transactions:  data.Transactions,
+		Transactions:  transactions,
 		Withdrawals:   []*ethtypes.Withdrawal{},
 		BlobGasUsed:   &data.BlobGasUsed,
 		ExcessBlobGas: &data.ExcessBlobGas,
